@@ -974,8 +974,15 @@ class Simplifier:
 
                 for (a, av), (b, bv) in itertools.permutations(((left, l), (right, r))):
                     if isinstance(a, self.LT_LTE) and isinstance(b, self.LT_LTE):
+                        if av == bv and type(a) is not type(b):
+                            # same bound: AND keeps the strict comparison, OR the inclusive one
+                            strict, inclusive = (a, b) if isinstance(a, exp.LT) else (b, a)
+                            return inclusive if or_ else strict
                         return left if (av > bv if or_ else av <= bv) else right
                     if isinstance(a, self.GT_GTE) and isinstance(b, self.GT_GTE):
+                        if av == bv and type(a) is not type(b):
+                            strict, inclusive = (a, b) if isinstance(a, exp.GT) else (b, a)
+                            return inclusive if or_ else strict
                         return left if (av < bv if or_ else av >= bv) else right
 
                     # we can't ever shortcut to true because the column could be null
